@@ -15,11 +15,18 @@ NODE_OF = [0, 0, 1, 1]
 LD = {'name': 'ld', 'programs': [{'name': 'l30', 'expected_loading': 30}, {'name': 'l60', 'expected_loading': 60}]}
 
 
+PROG_LOAD = {'app:a': 40, 'app:b': 20, 'app:c': 30}
+
+
 def app_rules(dist, ids, loads=(40, 20, 30)):
-    return {'name': 'app', 'distribution': dist, 'identifiers': ids, 'starting_strategy': 'CONFIG',
-            'programs': [{'name': 'a', 'start_sequence': 1, 'expected_loading': loads[0]},
-                         {'name': 'b', 'start_sequence': 1, 'expected_loading': loads[1]},
-                         {'name': 'c', 'start_sequence': 2, 'expected_loading': loads[2]}]}
+    progs = [{'name': 'a', 'start_sequence': 1, 'expected_loading': loads[0]},
+             {'name': 'b', 'start_sequence': 1, 'expected_loading': loads[1]},
+             {'name': 'c', 'start_sequence': 2, 'expected_loading': loads[2]}]
+    if dist == 'ALL_INSTANCES':
+        # the identifiers of the application element only matter to the SINGLE_* rules
+        return {'name': 'app', 'distribution': dist, 'starting_strategy': 'CONFIG',
+                'programs': [dict(p, identifiers=ids) for p in progs]}
+    return {'name': 'app', 'distribution': dist, 'identifiers': ids, 'starting_strategy': 'CONFIG', 'programs': progs}
 
 
 def settle(w):
@@ -113,15 +120,18 @@ def part2(job):
     res = w.user_rpc(requester, 'start_application', (st, 'app', False))
     errs = [dict(e) for e in w.faults]
     targets = {}
-    for _ in range(8):
+    order = []      # (namespec, target) in the order of the requests
+    obs = w.drain_observations()
+    for _ in range(9):
+        for e in obs['emitted']:
+            if e['req'] == 'START_PROCESS':
+                targets.setdefault(e['args'][0], []).append(w.idents[e['dst']])
+                order.append((e['args'][0], w.idents[e['dst']]))
         w.drain()
         settle(w)
         w.drain()
         w.round_robin(1, settle=settle)
         obs = w.drain_observations()
-        for e in obs['emitted']:
-            if e['req'] == 'START_PROCESS':
-                targets.setdefault(e['args'][0], []).append(w.idents[e['dst']])
     # recompute from the whole run
     out = []
     sig_base = f'{dist}:{st}'
@@ -133,11 +143,42 @@ def part2(job):
     else:
         permitted = [w.idents[int(x[-1]) - 1] if x.startswith('#n') else x for x in ids.split(',')]
         permitted = [w.idents[k] for k in range(4) if w.idents[k] in permitted or f'10.0.0.{NODE_OF[k]+1}:{25000+k}' in permitted]
+    # the same in the order DECLARED by the rules (the CONFIG order)
+    declared = list(idents) if ids == '*' else [x for x in ids.split(',') if x in idents]
+    assert set(declared) == set(permitted), (declared, permitted)
+
+    def per_process(cands_of, label, plan_time=False):
+        """Every request goes where the strategy says, given the candidates in declared order, the load table at
+        that time and the requests still pending (processes of the same sub-sequence requested just before)."""
+        errs2 = []
+        base = dict(inst_load)
+        pending = {}
+        seq = {'app:a': 1, 'app:b': 1, 'app:c': 2}
+        current = 1
+        for ns, tgt in order:
+            if seq[ns] != current:
+                # the former sub-sequence is RUNNING: its load is in the table now
+                for k, v in pending.items():
+                    base[k] += v
+                pending, current = {}, seq[ns]
+            cands = cands_of(ns)
+            want = ref.acceptable(st, cands, running, base, pending, node_of, PROG_LOAD[ns], m.ident)
+            if plan_time:
+                # SINGLE_NODE plans every process before the first request is made: the choice may also be the one
+                # of the load table of that time (the statement does not say when the choice is made)
+                want = want | ref.acceptable(st, cands, running, inst_load, {}, node_of, PROG_LOAD[ns], m.ident)
+            if tgt not in want:
+                errs2.append({'clause': 'per-process-placement', 'signature': f'C14:{label}:process-choice:{st}',
+                              'process': ns, 'target': tgt, 'want': sorted(map(str, want)), 'candidates': cands,
+                              'load_table': base, 'pending': dict(pending), 'order': order})
+                break
+            pending[tgt] = pending.get(tgt, 0) + PROG_LOAD[ns]
+        return errs2
     knows_all = [i for k, i in enumerate(idents) if k not in knows.get('lack_b', ())]
     app_load = 40 + 20 + 30
     flat = [(ns, t) for ns, ts in targets.items() for t in ts]
     if dist == 'SINGLE_INSTANCE':
-        cands = [i for i in permitted if i in knows_all]
+        cands = [i for i in declared if i in knows_all]
         want = ref.acceptable(st, cands, running, inst_load, {}, node_of, app_load, m.ident)
         used = {t for _, t in flat}
         if want == {None}:
@@ -154,8 +195,14 @@ def part2(job):
             elif not used:
                 out.append({'clause': 'single-instance-nothing-sent', 'signature': f'C14:single-instance:none:{st}',
                             'want': sorted(want)})
+    elif dist == 'ALL_INSTANCES':
+        out += per_process(lambda ns: [i for i in declared if ns != 'app:b' or i in knows_all], 'all-instances')
     elif dist == 'SINGLE_NODE':
         used_nodes = {node_of[t] for _, t in flat}
+        if len(used_nodes) == 1:
+            nd0 = next(iter(used_nodes))
+            out += per_process(lambda ns: [i for i in declared if node_of[i] == nd0
+                                           and (ns != 'app:b' or i in knows_all)], 'single-node', plan_time=True)
         if len(used_nodes) > 1:
             out.append({'clause': 'single-node-spread', 'signature': f'C14:single-node:spread:{st}', 'targets': targets})
         for ns, t in flat:
@@ -176,7 +223,7 @@ def part2(job):
             members = [i for i in permitted if node_of[i] == nd]
             if members and any(i in knows_all for i in members):
                 sol_nodes.add(nd)
-        cands = [i for i in permitted if node_of[i] in sol_nodes]
+        cands = [i for i in declared if node_of[i] in sol_nodes]
         want = ref.acceptable(st, cands, running, inst_load, {}, node_of, app_load, m.ident)
         want_nodes = {node_of[i] for i in want if i is not None}
         if want == {None}:
@@ -207,10 +254,13 @@ def main():
         if t == 'thorough':
             loads2 = [l for k, l in enumerate(all_loads) if k % 2 == 0]
         for loads in loads2:
-            for dist in ('SINGLE_INSTANCE', 'SINGLE_NODE'):
+            for dist in ('SINGLE_INSTANCE', 'SINGLE_NODE', 'ALL_INSTANCES'):
                 for st in ref.STRATEGIES:
                     for requester in (0, 3):
-                        for ids in ('*', '10.0.0.1:25001,10.0.0.2:25002,10.0.0.2:25003'):
+                        # all instances / a subset in the order of the cluster / the same with every node's
+                        # instances declared in the opposite order
+                        for ids in ('*', '10.0.0.1:25001,10.0.0.2:25002,10.0.0.2:25003',
+                                    '10.0.0.2:25003,10.0.0.1:25001,10.0.0.2:25002,10.0.0.1:25000'):
                             jobs.append((loads, dist, st, requester, ids, {}))
                     if loads in ((0, 0, 0, 0), (30, 0, 0, 0)):
                         jobs.append((loads, dist, st, 0, '*', {'lack_b': (1,)}))
@@ -246,9 +296,10 @@ def main():
     cov['rule'] = ('(1) 4 instances on 2 nodes brought to OPERATION by the real handshake, load tables built by really '
                    'starting load processes (0/30/60 per instance), then the real get_supvisors_instance is called for every '
                    'ordered candidate subset x 3 pending-request maps x 4 loads x 6 strategies x 2 requesters and compared '
-                   'with the set-valued reference; (2) real start_application of a SINGLE_INSTANCE / SINGLE_NODE application '
+                   'with the set-valued reference; (2) real start_application of a SINGLE_INSTANCE / SINGLE_NODE / ALL_INSTANCES application '
                    'of 3 sequenced programs, every process starting normally: the targets of the emitted start requests are '
-                   'compared with the reference. distinct = distinct (strategy, outcome class, tie size, load, subset size)')
+                   'compared with the reference (instance / node of the whole application, then request by request with the '
+                   'candidates in declared order, the load table at that time and the pending requests). distinct = distinct (strategy, outcome class, tie size, load, subset size)')
     out.assumptions += ['ties beyond the documented tie-break are all acceptable']
     return out.finish(exhaustive=True)
 
